@@ -271,7 +271,7 @@ Theorem drop_blocks_refines (t : tb) (ck : option ckey) (rowf : list A -> list A
   res_map flatten (M_drop_blocks t ck rowf) =
   res_map (map (fun c => (fst c, rowf (snd c)))) (S_drop_columns (flatten t) ck).
 Proof.
-  intros Hwf Hne Hdom. unfold M_drop_blocks, S_drop_columns.
+  intros Hwf Hne Hdom. unfold M_drop_blocks, S_drop_columns, block_slices_for, Gen.Gen_c08.retain_key_order_drop_blocks.
   destruct ck as [k|]; cbn [drop_positions].
   - destruct t as [|b0 t0]; [congruence|]. cbn [is_nil]. set (t := b0 :: t0) in *.
     destruct (key_positions k (Z.of_nat (length (flatten t)))) as [ps|e] eqn:Ek.
